@@ -258,7 +258,7 @@ FACT_FIELDS = [("I", "int64"), ("J", "int64"), ("I8", "int8"), ("I16", "int16"),
                ("U8", "uint8"), ("U16", "uint16"), ("U32", "uint32"), ("U64", "uint64"), ("Un", "uint"),
                ("F", "float64"), ("G", "float64"), ("F32", "float32"), ("S", "string"), ("T", "string"),
                ("B", "bool"), ("C", "bool"), ("Tm", "time"), ("Tn", "time"), ("P", "*Sub"), ("Q", "*Sub"), ("V", "Sub"),
-               ("A", "[]int64"), ("AS", "[]string"), ("AF", "[]float64"), ("AP", "[]*Sub"),
+               ("A", "[]int64"), ("AS", "[]string"), ("AF", "[]float64"), ("AP", "[]*Sub"), ("AA", "[][]int64"),
                ("M", "map[string]int64"), ("MS", "map[string]string"), ("MI", "map[int64]int64"), ("X", "iface")]
 SUB_FIELDS = [("N", "int64"), ("S", "string"), ("B", "bool"), ("F", "float64")]
 
@@ -299,6 +299,8 @@ def fact(**kw):
             fs.append([name, ["slice", "float64", [leaf("float64", x) for x in (v or [])]]])
         elif ty == "[]*Sub":
             fs.append([name, ["slice", "*Sub", [["ptr", "Sub", x] for x in (v or [])]]])
+        elif ty == "[][]int64":
+            fs.append([name, ["slice", "[]int64", [["slice", "int64", [leaf("int64", x) for x in row]] for row in (v or [])]]])
         elif ty == "map[string]int64":
             fs.append([name, ["map", "string", "int64", [[["s", k], leaf("int64", x)] for k, x in sorted((v or {}).items())]]])
         elif ty == "map[string]string":
